@@ -26,6 +26,7 @@ func TestVerif_C29(t *testing.T) {
 		vh.Inconclusive(t, "start server: %v", err)
 	}
 	defer env.srv.Stop()
+	c29RunPinned(t, env)
 	vh.Check(t, "merge", 200, 1000, func(rt *rapid.T) {
 		c29Case(rt, env, rec)
 	})
@@ -59,7 +60,7 @@ type mHistoryOpts struct {
 }
 
 // mRunHistory draws and executes one side's history on the currently checked-out branch.
-func mRunHistory(rt *rapid.T, se *vsql.Session, side *mSide, label string, tables []string, o mHistoryOpts, schemaChange func(step int) []string) {
+func mRunHistory(rt *rapid.T, c *mCase, side *mSide, label string, tables []string, o mHistoryOpts, schemaChange func(step int) []string) {
 	nc := rapid.IntRange(1, o.maxCommits).Draw(rt, label+".commits")
 	step := 0
 	for ci := 0; ci < nc; ci++ {
@@ -68,24 +69,24 @@ func mRunHistory(rt *rapid.T, se *vsql.Session, side *mSide, label string, table
 			if schemaChange != nil {
 				for _, ddl := range schemaChange(step) {
 					for _, tb := range tables {
-						se.MustExec(rt, mInst(ddl, tb))
+						c.run(rt, mInst(ddl, tb))
 					}
 				}
 			}
 			step++
 			stmt := side.genOp(rt, fmt.Sprintf("%s.c%d.o%d", label, ci, oi), o.op)
 			for _, tb := range tables {
-				se.MustExec(rt, mInst(stmt, tb))
+				c.run(rt, mInst(stmt, tb))
 			}
 		}
 		if ci == nc-1 && schemaChange != nil {
 			for _, ddl := range schemaChange(-1) { // not yet applied: apply at the end
 				for _, tb := range tables {
-					se.MustExec(rt, mInst(ddl, tb))
+					c.run(rt, mInst(ddl, tb))
 				}
 			}
 		}
-		se.MustExec(rt, fmt.Sprintf("CALL dolt_commit('-A','--allow-empty','-m','%s commit %d')", label, ci))
+		c.run(rt, fmt.Sprintf("CALL dolt_commit('-A','--allow-empty','-m','%s commit %d')", label, ci))
 	}
 }
 
@@ -94,10 +95,11 @@ func mDoMerge(rt *rapid.T, c *mCase, mode mergeMode, work, from, other string) (
 	c.checkoutNew(rt, work, from)
 	se := c.se
 	if mode == modeTxn {
-		se.MustExec(rt, "SET autocommit = 0")
+		c.run(rt, "SET autocommit = 0")
 	} else {
-		se.MustExec(rt, "SET @@dolt_allow_commit_conflicts = 1")
+		c.run(rt, "SET @@dolt_allow_commit_conflicts = 1")
 	}
+	rt.Logf("SQL: CALL dolt_merge('%s')", c.pfx+other)
 	res, err := se.Query(fmt.Sprintf("CALL dolt_merge('%s')", c.pfx+other))
 	if err != nil {
 		rt.Fatalf("dolt_merge('%s') into %s failed: %v", other, from, err)
@@ -189,7 +191,7 @@ func mCheckIndex(rt *rapid.T, se *vsql.Session, what, table string, cols []strin
 
 func c29Case(rt *rapid.T, env *mEnv, rec *vh.Recorder) {
 	keyHi := 16
-	if rapid.IntRange(0, 7).Draw(rt, "widekeys") == 0 {
+	if mOneIn(rt, "widekeys", 3) {
 		keyHi = 250
 	}
 	sp := mGenSpec(rt, mSpecOpts{keyMaxLo: 3, keyMaxHi: keyHi})
@@ -198,7 +200,7 @@ func c29Case(rt *rapid.T, env *mEnv, rec *vh.Recorder) {
 	if nBase < 20 {
 		nBase = 20 // most key ranges hold fewer keys anyway; an empty base is drawn through keymax/skips
 	}
-	if rapid.IntRange(0, 19).Draw(rt, "emptybase") == 0 {
+	if mOneIn(rt, "emptybase", 5) {
 		nBase = 0
 	}
 	baseStmts := base.genBaseRows(rt, nBase, sp.KeyMax)
@@ -209,63 +211,137 @@ func c29Case(rt *rapid.T, env *mEnv, rec *vh.Recorder) {
 	se := c.se
 	tph := time.Now()
 	c.checkoutNew(rt, "base", "")
-	se.MustExec(rt, sp.create("t"))
+	c.run(rt, sp.create("t"))
 	for _, st := range baseStmts {
-		se.MustExec(rt, mInst(st, "t"))
+		c.run(rt, mInst(st, "t"))
 	}
-	se.MustExec(rt, "CALL dolt_commit('-A','--allow-empty','-m','base')")
+	c.run(rt, "CALL dolt_commit('-A','--allow-empty','-m','base')")
 
 	hop := mHistoryOpts{maxCommits: 3, maxOps: 7, op: mOpOpts{keyMax: sp.KeyMax, maxRange: 2, wInsert: 3, wUpdate: 6, wDelete: 2}}
 	tables := []string{"t"}
 
 	phase("base", tph)
 	tph = time.Now()
+	// optional one-sided schema change
+	var sc *mSchemaChange
+	oursChanged := false
+	if rapid.Bool().Draw(rt, "schemachange") {
+		sc = mGenSchemaChange(rt, sp)
+		oursChanged = rapid.Bool().Draw(rt, "sc.ours")
+	}
+	var hookOurs, hookTheirs func(int) []string
+
 	ours := base.clone()
+	if sc != nil && oursChanged {
+		hookOurs = sc.hook(ours)
+	}
 	c.checkoutNew(rt, "b1", "base")
-	mRunHistory(rt, se, ours, "ours", tables, hop, nil)
+	mRunHistory(rt, c, ours, "ours", tables, hop, hookOurs)
 
 	theirs := base.clone()
+	if sc != nil && !oursChanged {
+		hookTheirs = sc.hook(theirs)
+	}
 	hop.op.hot = ours.touchedKeys()
 	hop.op.other = ours
 	c.checkoutNew(rt, "b2", "base")
-	mRunHistory(rt, se, theirs, "theirs", tables, hop, nil)
+	mRunHistory(rt, c, theirs, "theirs", tables, hop, hookTheirs)
 
 	phase("hist", tph)
 	tph = time.Now()
 	defer func() { phase("merges", tph) }()
-	cols := mNames(sp.Cols)
-	n := len(cols)
-	cq := mConflictQuery("t", cols, cols, cols)
+	merged := ours
+	if sc != nil && !oursChanged {
+		merged = theirs
+	}
+	cols := mNames(merged.Cols)
 	idxKind := mInt
 	if sp.Index != "" {
-		idxKind = sp.Cols[base.colIdx(sp.Index)].Kind
+		idxKind = merged.Cols[merged.colIdx(sp.Index)].Kind
 	}
 
 	// direction 1: theirs into ours
-	exp1, conf1 := vsql.Merge3(base.T, ours.T, theirs.T)
-	flag := mDoMerge(rt, c, mode, "m1", "b1", "b2")
-	if (flag != "0") != (len(conf1) > 0) {
-		rt.Fatalf("dolt_merge(b2 into b1) conflicts flag %s, model has %d conflicts", flag, len(conf1))
+	exp1, conf1 := mModelMerge(base, ours, theirs, sc, oursChanged)
+	var rows1, crow1, rows2, crow2 []string
+	skip1 := c29ShapeLeftSchemaRightDelete(base, ours, theirs, sc, oursChanged) && vh.OpenFinding("C29", c29FindLeftSchemaRightDelete)
+	if skip1 {
+		rec.Excluded(1)
+	} else {
+		flag := mDoMerge(rt, c, mode, "m1", "b1", "b2")
+		if (flag != "0") != (len(conf1) > 0) {
+			rt.Fatalf("dolt_merge(b2 into b1) conflicts flag %s, model has %d conflicts", flag, len(conf1))
+		}
+		cq1 := mConflictQuery("t", mNames(base.Cols), cols, mNames(theirs.Cols))
+		rows1, crow1 = mCheckMerged(rt, se, "merge b2 into b1", "t", cols, exp1, mConflictDisplay(conf1, base, theirs, exp1), cq1, sp.Index, idxKind)
+		mEndMerge(rt, se, mode, len(conf1) > 0)
 	}
-	rows1, crow1 := mCheckMerged(rt, se, "merge b2 into b1", "t", cols, exp1, mExpectedConflicts(conf1, n, n, n), cq, sp.Index, idxKind)
-	mEndMerge(rt, se, mode, len(conf1) > 0)
 
 	// direction 2: ours into theirs, from the same two heads
-	exp2, conf2 := vsql.Merge3(base.T, theirs.T, ours.T)
-	flag = mDoMerge(rt, c, mode, "m2", "b2", "b1")
-	if (flag != "0") != (len(conf2) > 0) {
-		rt.Fatalf("dolt_merge(b1 into b2) conflicts flag %s, model has %d conflicts", flag, len(conf2))
+	exp2, conf2 := mModelMerge(base, theirs, ours, sc, sc != nil && !oursChanged)
+	skip2 := c29ShapeLeftSchemaRightDelete(base, theirs, ours, sc, sc != nil && !oursChanged) && vh.OpenFinding("C29", c29FindLeftSchemaRightDelete)
+	if skip2 {
+		rec.Excluded(1)
+	} else {
+		flag := mDoMerge(rt, c, mode, "m2", "b2", "b1")
+		if (flag != "0") != (len(conf2) > 0) {
+			rt.Fatalf("dolt_merge(b1 into b2) conflicts flag %s, model has %d conflicts", flag, len(conf2))
+		}
+		cq2 := mConflictQuery("t", mNames(base.Cols), cols, mNames(ours.Cols))
+		rows2, crow2 = mCheckMerged(rt, se, "merge b1 into b2", "t", cols, exp2, mConflictDisplay(conf2, base, ours, exp2), cq2, sp.Index, idxKind)
+		mEndMerge(rt, se, mode, len(conf2) > 0)
 	}
-	rows2, crow2 := mCheckMerged(rt, se, "merge b1 into b2", "t", cols, exp2, mExpectedConflicts(conf2, n, n, n), cq, sp.Index, idxKind)
-	mEndMerge(rt, se, mode, len(conf2) > 0)
 
 	// swap symmetry, stated on dolt's own results
-	c29CheckSwap(rt, rows1, rows2, crow1, crow2, conf1, sp.NPK, n)
+	if !skip1 && !skip2 {
+		c29CheckSwap(rt, rows1, rows2, crow1, crow2, conf1, sp.NPK, len(cols), sc == nil)
+	}
 
-	sh := mShape(base.T, ours.T, theirs.T, conf1)
+	sh := c29Shape(base, ours, theirs, conf1, exp1, cols)
 	desc := fmt.Sprintf("%s; base=%s; ours: %s; theirs: %s", sp, mShow(base.T), strings.Join(ours.Ops, "; "), strings.Join(theirs.Ops, "; "))
 	nontrivial := sh.cellwise > 0 && sh.conflicts > 0 && sh.oneSidedDelete > 0
-	rec.Case(desc, nontrivial, c29Classes(sp, sh, mode, len(base.T.Rows))...)
+	cl := c29Classes(sp, sh, mode, len(base.T.Rows))
+	if sc != nil {
+		cl = append(cl, "one_sided_schema_change", "sc="+sc.Kind)
+		if oursChanged {
+			cl = append(cl, "sc_on_ours")
+		} else {
+			cl = append(cl, "sc_on_theirs")
+		}
+		if sc.Kind == "add" {
+			cl = append(cl, "sc_add"+strings.Fields(sc.Pos + " LAST")[0])
+			if sc.Col.HasDef {
+				cl = append(cl, "sc_add_default")
+			}
+		}
+	} else {
+		cl = append(cl, "no_schema_change")
+	}
+	if skip1 || skip2 {
+		cl = append(cl, "one_direction_excluded_known")
+	}
+	rec.Case(desc, nontrivial, cl...)
+}
+
+// c29Shape classifies the merge on the columns all three versions share.
+func c29Shape(base, ours, theirs *mSide, conf []vsql.Conflict, exp *vsql.Table, merged []string) mMergeShape {
+	var common []string
+	for _, n := range merged {
+		if base.colIdx(n) >= 0 && ours.colIdx(n) >= 0 && theirs.colIdx(n) >= 0 {
+			common = append(common, n)
+		}
+	}
+	proj := func(s *mSide) *vsql.Table {
+		out := vsql.NewTable(common, s.NPK)
+		for _, k := range s.T.Keys() {
+			r := make(vsql.Row, len(common))
+			for i, n := range common {
+				r[i] = s.T.Rows[k][s.colIdx(n)]
+			}
+			out.Rows[k] = r
+		}
+		return out
+	}
+	return mShape(proj(base), proj(ours), proj(theirs), conf)
 }
 
 func c29Classes(sp mSpec, sh mMergeShape, mode mergeMode, nbase int) []string {
@@ -301,7 +377,7 @@ func c29Classes(sp mSpec, sh mMergeShape, mode mergeMode, nbase int) []string {
 
 // c29CheckSwap: outside the conflicted keys both directions hold the same rows; the conflict
 // tables are mirror images (base equal, ours and theirs exchanged).
-func c29CheckSwap(rt *rapid.T, rows1, rows2, crow1, crow2 []string, conf []vsql.Conflict, npk, ncols int) {
+func c29CheckSwap(rt *rapid.T, rows1, rows2, crow1, crow2 []string, conf []vsql.Conflict, npk, ncols int, mirror bool) {
 	isConf := map[string]bool{}
 	for _, c := range conf {
 		isConf[c.Key] = true
@@ -319,6 +395,13 @@ func c29CheckSwap(rt *rapid.T, rows1, rows2, crow1, crow2 []string, conf []vsql.
 	a, b := strip(rows1), strip(rows2)
 	if !vsql.EqualStrings(a, b) {
 		rt.Fatalf("swapped merge differs outside conflicted keys\n b2 into b1: %s\n b1 into b2: %s", vsql.Show(a), vsql.Show(b))
+	}
+	if !mirror {
+		// different column sets per version: the conflict tables were each compared with the model
+		if len(crow1) != len(crow2) {
+			rt.Fatalf("swapped merge has %d conflicts, the other direction %d", len(crow2), len(crow1))
+		}
+		return
 	}
 	// mirror crow2: base | ours+type | theirs+type  →  base | theirs+type | ours+type
 	var mir []string
